@@ -197,21 +197,52 @@ def decode_order_rule(ctx, prog, an, rule, decoder_path, label):
                 srcs.append(src)
     oks = False
     why = "no enumerate() over the template's fields"
-    for src in srcs:
+    def lift_arg(bb, e):
+        """If e is a parameter of a helper on the chain, replace it by the caller's argument."""
+        e = peel(e)
+        guard = 0
+        while e[0] == "arg" and guard < 4:
+            guard += 1
+            parent = None
+            for idx, (pb, pblk, kind, c) in enumerate(R.chain):
+                if idx + 1 < len(R.chain) and R.chain[idx + 1][0].path == bb.path and kind == "call":
+                    parent = (pb, pblk)
+            if parent is None:
+                break
+            pb, pblk = parent
+            args = pb.term(pblk)["args"]
+            if e[1] - 1 >= len(args):
+                break
+            e = peel(an.op(pb, args[e[1] - 1]))
+            bb = pb
+        return e
+
+    src_bodies = []
+    for (bb, _, _, _) in R.chain:
+        for bk, t, cc in bb.calls():
+            if cc is not None and cc.npath == "std::iter::Iterator::enumerate":
+                src_bodies.append(bb)
+    for src, sbb in zip(srcs, src_bodies):
         if src[0] == "call" and src[2] is not None and src[2].npath.endswith("<impl [T]>::iter"):
-            inner = peel(src[3][0])
+            inner = lift_arg(sbb, src[3][0])
             isf = (inner[0] == "field" and inner[2] == "fields") or (inner[0] == "call" and inner[2] is not None and inner[2].nsyn.endswith("CommonTemplate::get_fields"))
             oks = oks or isf
             why = "enumerate source = %s" % canon(src)[:140]
     ctx.ob(rule, decoder_path, "iterates-template-fields", oks, why)
     # (2) insert(index, (field_type, value))
     ins = [(bk, t) for bk, t, cc in b.calls() if cc is not None and cc.npath == "std::collections::BTreeMap::insert"]
+    entries = map_entries(an, b)
     okk = False
-    why = "no BTreeMap::insert next to the field decode"
-    if ins:
-        key = peel(an.op(b, ins[0][1]["args"][1]))
-        val = peel(an.op(b, ins[0][1]["args"][2]))
-        kok = key[0] == "tfield" and key[2] == 0 and (is_element_expr(key[1]) or True) and "usize" in (ins[0][1]["argtys"][1])
+    why = "no BTreeMap::insert (or BTreeMap::from([(k, v)])) next to the field decode"
+    if ins or entries:
+        if ins:
+            key = peel(an.op(b, ins[0][1]["args"][1]))
+            val = peel(an.op(b, ins[0][1]["args"][2]))
+            kty = ins[0][1]["argtys"][1]
+        else:
+            key, val, kty = entries[0][1], entries[0][2], "usize"
+        ins = ins or [(entries[0][0], {"argtys": ["", kty]})]
+        kok = key[0] == "tfield" and key[2] == 0 and (is_element_expr(key[1]) or True) and "usize" in kty
         kok = kok and bool(find(key, lambda n: n[0] == "arg" or (n[0] == "some")))
         vok = val[0] == "tuple" and len(val[1]) == 2 and peel(val[1][0])[0] == "field" and peel(val[1][0])[2] == "field_type"
         vv = peel(val[1][1]) if val[0] == "tuple" and len(val[1]) == 2 else ("opaque",)
@@ -247,6 +278,20 @@ def decode_order_rule(ctx, prog, an, rule, decoder_path, label):
     return R
 
 
+def map_entries(an, b):
+    """[(block, key expr, value expr)] for maps built as `BTreeMap::from([(k, v), ..])`."""
+    out = []
+    for bk, t, cc in b.calls():
+        if cc is not None and cc.nsyn in ("std::convert::From::from", "std::iter::FromIterator::from_iter") and "std::collections::BTreeMap<" in (cc.id if cc.resolved else "") :
+            arr = peel(an.op(b, t["args"][0]))
+            if arr[0] == "array":
+                for el in arr[1]:
+                    el = peel(el)
+                    if el[0] == "tuple" and len(el[1]) == 2:
+                        out.append((bk, peel(el[1][0]), peel(el[1][1])))
+    return out
+
+
 def is_element_expr(e):
     e = peel(e)
     return e[0] in ("arg", "some", "cycle", "tfield")
@@ -273,6 +318,14 @@ def one_map_per_record_rule(ctx, prog, an, rule, decoder_path, label, R=None):
         return
     b, blk, c = R.site()
     ins = [bk for bk, t, cc in b.calls() if cc is not None and cc.npath == "std::collections::BTreeMap::insert"]
+    ent = map_entries(an, b)
+    if not ins and ent:
+        # `BTreeMap::from([(index, value)])` next to the field decode: a fresh single-entry map per field
+        d = R.depth_in_chain(b, ent[0][0])
+        ctx.ob(rule, label, "one-map-per-record", False,
+               "a fresh map is created for every field (BTreeMap::from([(k, v)]) at repetition depth %s, next to the field decode): the decoder yields one single-entry map per field, so the common view reports one 'flow' per field" % d,
+               site=b.line(ent[0][0]))
+        return
     if not ins:
         ctx.ob(rule, label, "one-map-per-record", False, "no BTreeMap::insert next to the field decode (unrecognised shape)")
         return
